@@ -242,8 +242,19 @@ pub fn run(rep: &mut Report) {
         }
         sweep(rep, &format!("c04.ident[{}]", scale_name(ts)), ne * nd, |i, out| j_ident(ts, el[(i / nd) as usize], ds[(i % nd) as usize], out));
         sweep(rep, &format!("c04.unit[{}]", scale_name(ts)), ne * 36, |i, out| j_unit((i % 4) as usize, ts, el[(i / 36) as usize], UNITS[((i / 4) % 9) as usize], out));
-        let secs: [i64; 13] = [0, 1, -1, 59, -60, 86_400, -86_400, 3_155_760_000, -3_155_760_000, 4_000_000_000, -4_000_000_000, 1 << 31, 37];
-        sweep(rep, &format!("c04.add_f64[{}]", scale_name(ts)), ne * 13, |i, out| j_f64(ts, el[(i / 13) as usize], secs[(i % 13) as usize], out));
+        // integer seconds of every magnitude, including beyond the i64 nanosecond range (~292 years) where Unit * f64
+        // takes its slow path; only values whose product with 1e9 is exact in f64 (the statement's "exact integer")
+        let mut secs: Vec<i64> = vec![0, 1, -1, 59, -60, 86_400, -86_400, 3_155_760_000, -3_155_760_000, 4_000_000_000, -4_000_000_000, 1 << 31, 37];
+        for m in [1i64 << 33, 1 << 34, 1 << 36, 1 << 40, 10_000_000_000, 100_000_000_000, 10_000_000_000_000, 9_223_372_036, 9_223_372_037, (1 << 34) + (1 << 10), 3 * (1 << 38)] {
+            for sg in [1i64, -1] {
+                let v = sg * m;
+                if ((v as f64) * 1e9) as i128 == v as i128 * NS_S && (v as f64) as i64 == v {
+                    secs.push(v);
+                }
+            }
+        }
+        let nsx = secs.len() as u64;
+        sweep(rep, &format!("c04.add_f64[{}]", scale_name(ts)), ne * nsx, |i, out| j_f64(ts, el[(i / nsx) as usize], secs[(i % nsx) as usize], out));
     }
     // cross-scale differences: sub-lattice per scale (window round every entry, both signs), all 81 pairs
     let subs: Vec<Vec<i128>> = SCALES.iter().map(|ts| lattice::el(*ts, 1, None).into_iter().step_by(if q { 3 } else { 1 }).collect()).collect();
